@@ -304,7 +304,56 @@ def rule_d(ctx, out):
         raise AnalysisError(f"only {n} max/min-over-iterable calls found")
 
 
+def rule_f(ctx, out):
+    """split_blocks_by_number cuts the rbr instruction list after the k-th opcode annotation for every k in where2split.  Its consumer
+    (generate_subblocks) relies on: one more piece than cuts; every piece after the first starts with the two lines that end the
+    piece before it (the cut instruction and its annotation); the pieces re-assemble to the input.  Evaluated abstractly on every cut
+    set of small instruction lists — in particular a cut at the very last opcode, which leaves a last piece of just the two shared lines."""
+    import itertools
+    from ..core.interp import ModuleInterp
+    from ..core.minieval import Unsupported, Raised
+    f = ctx.func(f"{GO}.split_blocks_by_number")
+    mi = ModuleInterp(ctx, max_steps=100000)
+    n = 0
+    for n_ops in (2, 3, 4):
+        instrs = []
+        for k in range(n_ops):
+            instrs += [f"s({k}) = op{k}(s({k + 1}))", f"nop(OP{k})"]
+        for r in range(0, n_ops + 1):
+            for cuts in itertools.combinations(range(n_ops), r):
+                try:
+                    pieces = mi.call(f, list(instrs), list(cuts))
+                except Raised as e:
+                    out.bad("split_blocks_by_number:raises", f"split_blocks_by_number raises {e.what} for cuts {cuts} on {n_ops} opcodes", where(f))
+                    continue
+                except Unsupported as e:
+                    raise AnalysisError(f"split_blocks_by_number: cannot evaluate abstractly: {e}")
+                n += 1
+                problem = None
+                if not isinstance(pieces, list) or len(pieces) != len(cuts) + 1:
+                    problem = f"{len(pieces) if isinstance(pieces, list) else pieces!r} pieces for {len(cuts)} cut(s)"
+                else:
+                    rebuilt = list(pieces[0])
+                    for prev, cur in zip(pieces, pieces[1:]):
+                        if cur[:2] != prev[-2:]:
+                            problem = "a piece does not start with the two lines that end the piece before it"
+                            break
+                        rebuilt += cur[2:]
+                    if problem is None and rebuilt != instrs:
+                        problem = "the pieces do not re-assemble to the input"
+                if problem is None:
+                    out.ok()
+                else:
+                    last = bool(cuts) and cuts[-1] == n_ops - 1
+                    out.bad(f"split_blocks_by_number:{'cut-at-last-opcode' if last else 'cuts'}:{problem.split(' for ')[0].split(' ')[-1] if 'pieces for' in problem else 'shape'}",
+                            f"split_blocks_by_number on {n_ops} opcodes with cuts {list(cuts)}: {problem}", where(f), {"pieces": repr(pieces)[:300]})
+    out.samples.append({"cut_sets_evaluated": n})
+    if n < 25:
+        raise AnalysisError(f"only {n} cut sets evaluated")
+
+
 RULES = [
+    ("C14.f", "numeric partition: pieces, overlaps and re-assembly", 25, rule_f),
     ("C14.e", "partition cuts: relative positions are re-based by the offset of the cut", 1, rule_e),
     ("C14.d", "variable numbers are compared as numbers", 6, rule_d),
     ("C14.a", "sub-block names: one expression for writer and reader", 12, rule_a),
